@@ -21,4 +21,5 @@ verif_file!(c08_ba);
 verif_file!(c09_serde);
 verif_file!(c10_report);
 verif_file!(c08_derived);
+verif_file!(c15_seq_join);
 verif_file!(scratch);
